@@ -759,12 +759,20 @@ func (x *Exec) evalSpecCall2(sc *specCtx, e *ast.CallExpr) Value {
 		return x.evalSpec(&o, e.Args[0])
 	case "at_head":
 		need(1)
-		if sc.head == nil {
-			panic(engineErr("at_head outside an iteration clause"))
+		head := sc.head
+		if head == nil && sc.frame != nil && len(sc.frame.loopSnap) == 1 {
+			// in an exit clause of a function with a single loop: the state at the last arrival at its head, i.e.
+			// (for a loop that is left from its head, like every range loop) the state in which the loop was left
+			for _, hs := range sc.frame.loopSnap {
+				head = hs
+			}
+		}
+		if head == nil {
+			panic(engineErr("at_head outside an iteration clause (and the function has not exactly one loop on this path)"))
 		}
 		o := *sc
-		o.heap = sc.head.heap
-		o.envOver = sc.head.env
+		o.heap = head.heap
+		o.envOver = head.env
 		return x.evalSpec(&o, e.Args[0])
 	case "at":
 		// at(event, e): e in the heap as it was right after the (only) such lock acquisition / channel receive,
